@@ -11,7 +11,7 @@ import time
 
 from .. import common, gen, lin, observe, probe
 from ..observe import same
-from ..sched import LateHandles, Recorder, Sched
+from ..sched import LateHandles, Recorder, Sched, store_gates
 
 PROP = 'C11'
 LEVEL = 'exploration'
@@ -345,6 +345,8 @@ def schedule(dc, sc, res, rng, label):
                        shared=base_dq if shared else None)
     sch = Sched(rng, clock, strategy=rng.choice(['random', 'preempt', 'random', 'ops']),
                 preempt_points={rng.randrange(0, 150) for _ in range(3)})
+    if store_gates(sch, rng, dc):
+        res.count('schedules_with_attribute_store_gates')
     rec = Recorder(sch)
     # a quarter of the schedules also read and assign by position next to the producers and consumers.  The property does
     # not promise that finding a position and using it is one atomic step (a position is found by walking the keys), so
